@@ -113,14 +113,19 @@ CLAIMS = {
         "technique": "sibling feature-record extraction by ast dataflow + comparison against a spec table; CFG must-pass-through for protocol attributes",
     },
     "C08": {
-        "text": "ONLY dispatch wiring and twin-kernel structure (necessary conditions): (python, numba) pair order vs boolean indexing in "
+        "text": "Dispatch wiring and twin-kernel structure (necessary conditions): (python, numba) pair order vs boolean indexing in "
                 "select, identical parameter lists, same group slices, same threshold/default/statistic per twin, identical group "
-                "scanners modulo yield/append, njit(cache=USE_NUMBA_CACHE) on every kernel, eligible dtype list, Numba NA test for "
-                "Float/NPDatetime, and purity of kernels w.r.t. the group slices (views of the frame's column) -- the part of the "
-                "order-of-use clause visible in code shape. NOT decided: numerical equality of NumPy vs Numba re-implementations and "
-                "JIT compile/cache history, which are runtime state no static argument here bounds.",
-        "note": TRUST + " The history clause proper (compilation order, on-disk cache) is outside what this technique can reach.",
-        "technique": "twin feature-record comparison over the ast, decorator/registry rules, syntactic purity rule for kernels",
+                "scanners modulo yield/append, njit(cache=USE_NUMBA_CACHE) on every kernel; for every element kind use_numba() admits "
+                "(evaluated through NumPy's scalar hierarchy: timedelta64 is an integer), the Numba-side NA test equals Vector.is_na's; "
+                "purity of kernels w.r.t. the group slices; and one structural cause of the order-of-use clause: no compiled kernel "
+                "returns a list mixing element values with None (list(Optional(T))), whose conversion depends on compile order with "
+                "the Numba installed here -- violated at four sites of the pinned tree, recorded as known finding D25 with the failing "
+                "histories. NOT decided: numerical equality of NumPy vs Numba re-implementations (e.g. the mode loops), rounding, the "
+                "on-disk cache.",
+        "note": TRUST + " The history clause is decided only through the Optional-list condition, which was established by a probe "
+                "(notes/numba_optional_lists.md); other compile-order effects, if any, are outside this technique.",
+        "technique": "twin feature-record comparison over the ast, decorator/registry rules, dtype-kind evaluation of use_numba against "
+                     "the Numba NA-test table, syntactic purity and result-list homogeneity rules for compiled kernels",
     },
     "C09": {
         "text": "Necessary conditions of rbind/select/unselect/rename/cbind/update/modify/colnames assignment for all inputs: two-phase "
